@@ -273,6 +273,12 @@ func MontStructured(m *big.Int) []V {
 		out = append(out, V{oracle.FromMont(oracle.Limbs(r), m), "stored-half-zero"})
 	}
 
+	for i, h := range HardInversion(m) {
+		if i < 12 {
+			out = append(out, V{oracle.FromMont(oracle.Limbs(h), m), "hard-inversion-stored"}, V{h, "hard-inversion"})
+		}
+	}
+
 	return out
 }
 
@@ -686,6 +692,26 @@ func HalfZeroStored(m *big.Int) []*big.Int {
 			if v := oracle.FromLimbs(l); v.Sign() > 0 && v.Cmp(m) < 0 {
 				out = append(out, v)
 			}
+		}
+	}
+
+	return out
+}
+
+// HardInversion returns the committed corpus of integers < m on which a divstep inversion needs ~610 steps (see
+// tools/hardinv): used both as canonical values and as stored (Montgomery) limbs.
+func HardInversion(m *big.Int) []*big.Int {
+	src := hardInvP
+	if m.Cmp(oracle.N) == 0 {
+		src = hardInvN
+	}
+
+	var out []*big.Int
+
+	for _, h := range src {
+		v, ok := new(big.Int).SetString(h, 16)
+		if ok && v.Cmp(m) < 0 {
+			out = append(out, v)
 		}
 	}
 
